@@ -45,6 +45,17 @@ INPLACE_OPS = {ast.Add: "iadd", ast.BitOr: "ior", ast.BitAnd: "iand", ast.Sub: "
 ADT_MODULES = {"LoopIR", "T", "UAST", "PAST", "CIR", "A", "E", "V", "D", "LS", "ES"}
 PASS_BASES = {"LoopIR_Rewrite", "LoopIR_Do", "Cursor_Rewrite", "LoopIR_Compare"}
 
+ORDER_NEUTRAL_CALLEES = {
+    # consumers whose result does not depend on the iteration order of their argument, and
+    # wrappers through which the order property is propagated by the interpreter itself
+    "set", "frozenset", "len", "any", "all", "sum", "sorted", "list", "tuple", "deque", "enumerate", "zip",
+    "isinstance", "min", "max", "dict", "reversed", "iter", "next", "filter", "map", "bool", "id", "type",
+    "hasattr", "chain", "join", "Counter",
+    # set / dict / list methods taking another collection
+    "update", "union", "intersection", "difference", "symmetric_difference", "issubset", "issuperset",
+    "isdisjoint", "extend", "difference_update", "intersection_update", "get", "pop", "add", "discard",
+    "remove", "copy", "keys", "values", "items", "__contains__", "index", "count", "setdefault",
+}
 IMM = lambda k="imm": frozenset({("I", k)})
 EMPTY = frozenset()
 
@@ -55,7 +66,7 @@ def B(why):
 
 class Site:
     __slots__ = ("sid", "kind", "cls", "elem", "kelem", "fields", "items", "desc", "file", "line",
-                 "unordered_fill", "sorted_key", "version")
+                 "unordered_fill", "sorted_key", "version", "qual", "tainted", "node", "clean")
 
     def __init__(self, sid, kind, cls, desc, file, line):
         self.sid, self.kind, self.cls, self.desc, self.file, self.line = sid, kind, cls, desc, file, line
@@ -64,6 +75,10 @@ class Site:
         self.fields = {}
         self.items = None
         self.unordered_fill = False   # dict filled inside a loop over an unordered value
+        self.tainted = frozenset()    # roots (unordered sites) whose iteration order this list's order depends on
+        self.clean = False            # result of sorted(): order fixed by the sort
+        self.qual = ""
+        self.node = None
         self.sorted_key = None        # for sorted(): text of the key (or "" for none)
 
 
@@ -281,7 +296,7 @@ def _walk_same_scope(node):
     while todo:
         n = todo.pop()
         yield n
-        if n is not node and isinstance(n, (ast.FunctionDef, ast.AsyncFunctionDef, ast.ClassDef, ast.Lambda)):
+        if isinstance(n, (ast.FunctionDef, ast.AsyncFunctionDef, ast.ClassDef, ast.Lambda)):
             continue
         if isinstance(n, (ast.ListComp, ast.SetComp, ast.DictComp, ast.GeneratorExp)):
             # comprehension targets are not function locals
@@ -302,7 +317,8 @@ def _walk_same_scope(node):
 class Config:
     """Sidecar annotations (each must be listed with a justification by the user)."""
 
-    def __init__(self, owns_param=None, returns_fresh=None, extern_fresh=None):
+    def __init__(self, owns_param=None, returns_fresh=None, extern_fresh=None, int_sites=None):
+        self.int_sites = int_sites or {}          # site label -> why (elements are ints)
         self.owns_param = owns_param or {}        # (rel, qual) -> {param: why}
         self.returns_fresh = returns_fresh or {}  # simple callee name or "X.meth" -> why
         self.extern_fresh = extern_fresh or {}    # attribute-call texts e.g. "bound_args.arguments"
@@ -327,11 +343,16 @@ class Analyzer:
         self.nested_index = {}     # (rel, outer qual, name) -> qual
         self.mut_sites = {}
         self.order_sites = {}
+        self.param_in = {}          # (fkey, param) -> join of actual arguments at resolved call sites
+        self.callgraph = {}         # fkey -> {fkey}
+        self.unordered_callees = {}
+        self.set_ordinals = {}
         self.call_args = []        # (mod, qual, call node, callee simple name, [arg avs], {kw: av})
         self.ret_sites = {}        # (rel, qual) -> [(node, av)]
         self.unsupported = []
         self.changed = False
         self.rounds = 0
+        self.rounds_done = False
         self.module_instances = {}  # class name -> [(rel, global name)]
         for rel in self.files:
             m = self.prog.mods[rel]
@@ -372,6 +393,7 @@ class Analyzer:
         s = self.sites.get(key)
         if s is None:
             s = Site(len(self.site_by_id), kind, cls, desc, mod.rel, getattr(node, "lineno", 0))
+            s.node = node
             self.sites[key] = s
             self.site_by_id.append(s)
             self.changed = True
@@ -411,22 +433,128 @@ class Analyzer:
     def own(self, av):
         return frozenset(("O", a[1]) if a[0] == "F" else a for a in av)
 
+    def deterministic_set(self, s):
+        """Iteration order of this set does not depend on PYTHONHASHSEED / addresses:
+        every element is an int/bool/None (hash = value), or the site is annotated."""
+        if s.elem and all(x[0] == "I" and x[1] in ("int", "bool", "none") for x in s.elem) and \
+                (s.kind != "dict" or all(x[0] == "I" and x[1] in ("int", "bool", "none") for x in s.kelem)):
+            return True
+        return self.site_label(s) in self.cfg.int_sites
+
+    def site_label(self, s):
+        """file::qualname::set#k  (k-th set/dict allocation of that function in source order)"""
+        key = (s.file, s.qual)
+        tab = self.set_ordinals.get(key)
+        if tab is None:
+            ss = sorted((x for x in self.site_by_id if x.file == s.file and x.qual == s.qual
+                         and x.kind in ("set", "dict") and x.node is not None),
+                        key=lambda x: (getattr(x.node, "lineno", 0), getattr(x.node, "col_offset", 0), x.sid))
+            tab = {}
+            cnt = {}
+            for x in ss:
+                cnt[x.kind] = cnt.get(x.kind, 0) + 1
+                tab[x.sid] = f"{x.file}::{x.qual}::{x.kind}#{cnt[x.kind]}"
+            if self.rounds_done:
+                self.set_ordinals[key] = tab
+        return tab.get(s.sid, "")
+
     def is_unordered(self, av, depth=0):
         if depth > 6:
             return False
         for a in av:
             if a[0] in ("F", "O"):
                 s = self.S(a[1])
+                if s.clean:
+                    continue
                 if s.kind == "set":
                     return True
                 if s.kind == "dict" and s.unordered_fill:
                     return True
-                if s.kind in ("iter", "dict", "list") and "__src__" in s.fields and \
+                if s.kind in ("list", "tuple") and s.tainted:
+                    return True
+                if s.kind in ("iter", "dict", "list", "tuple") and "__src__" in s.fields and \
                         self.is_unordered(s.fields["__src__"], depth + 1):
-                    if s.kind == "list":
-                        continue
+                    return True
+            elif a[0] == "P" and len(a) > 2:
+                v = self.param_in.get((a[2], a[1]))
+                if v and self.is_unordered(v, depth + 1):
                     return True
         return False
+
+    def roots(self, av, depth=0, seen=None):
+        """Unordered root sites (sets, unordered-filled dicts) an order-dependent value derives from."""
+        out = set()
+        seen = seen if seen is not None else set()
+        if depth > 8:
+            return out
+        for a in av:
+            if a in seen:
+                continue
+            seen.add(a)
+            if a[0] in ("F", "O"):
+                s = self.S(a[1])
+                if s.clean:
+                    continue
+                if s.kind == "set" or (s.kind == "dict" and s.unordered_fill):
+                    out.add(s.sid)
+                if s.tainted:
+                    out |= s.tainted
+                if "__src__" in s.fields:
+                    out |= self.roots(s.fields["__src__"], depth + 1, seen)
+            elif a[0] == "P" and len(a) > 2:
+                v = self.param_in.get((a[2], a[1]))
+                if v:
+                    out |= self.roots(v, depth + 1, seen)
+        return out
+
+    def reach(self, av, depth=0, seen=None):
+        """All sites an abstract value may denote / was derived from (through wrappers and parameters)."""
+        out = set()
+        seen = seen if seen is not None else set()
+        if depth > 8:
+            return out
+        for a in av:
+            if a in seen:
+                continue
+            seen.add(a)
+            if a[0] in ("F", "O"):
+                s = self.S(a[1])
+                out.add(s.sid)
+                if "__src__" in s.fields:
+                    out |= self.reach(s.fields["__src__"], depth + 1, seen)
+            elif a[0] == "P" and len(a) > 2:
+                v = self.param_in.get((a[2], a[1]))
+                if v:
+                    out |= self.reach(v, depth + 1, seen)
+        return out
+
+    def taint(self, av, roots):
+        roots = frozenset(roots)
+        for a in av:
+            if a[0] in ("F", "O"):
+                s = self.S(a[1])
+                if s.kind in ("list", "tuple", "val"):
+                    cur = s.tainted or frozenset()
+                    if not roots <= cur or not s.tainted:
+                        s.tainted = cur | roots
+                        self.changed = True
+
+    def propagate_unordered_callees(self):
+        """Effects of functions called from inside a loop over an unordered value
+        happen in that arbitrary order: lists they append to become order-tainted."""
+        seen = {}
+        todo = list(self.unordered_callees.items())
+        while todo:
+            f, roots = todo.pop()
+            if f in seen and roots <= seen[f]:
+                continue
+            seen[f] = seen.get(f, frozenset()) | roots
+            todo.extend((g, seen[f]) for g in self.callgraph.get(f, ()))
+        for r in self.mut_sites.values():
+            fk = f"{r['mod'].rel}::{r['qual']}"
+            if fk in seen and r["kind"] in ("call.append", "call.extend", "call.insert", "iadd"):
+                self.taint(r["av"], seen[fk])
+        return seen
 
     # -- driver ------------------------------------------------------------------
     def run(self):
@@ -437,11 +565,15 @@ class Analyzer:
             self.order_sites.clear()
             self.call_args = []
             self.ret_sites = {}
+            self.callgraph = {}
+            self.unordered_callees = {}
             for rel in self.files:
                 m = self.prog.mods[rel]
                 self._module(m)
+            self.in_unordered_funcs = self.propagate_unordered_callees()
             if not self.changed:
                 break
+        self.rounds_done = True
         return self
 
     def _module(self, m):
@@ -479,11 +611,13 @@ class Interp:
         self.nested_defs = {}   # name -> qual
         self.in_unordered = []  # stack of (loop node) for loops over unordered values
         self.compvars = []      # names bound by enclosing comprehensions
+        self._applied = False
         self.outer_defs = None
 
     # ---- helpers
     def fresh(self, node, tag, kind, elem=EMPTY, cls=None, desc="", kelem=EMPTY):
         s = self.an.site(node, tag, kind, self.mod, cls, desc)
+        s.qual = self.sc.qual
         if not elem <= s.elem:
             s.elem |= elem
             self.an.changed = True
@@ -559,7 +693,15 @@ class Interp:
             self.an.mut_sites[key] = rec
         rec["av"] = rec["av"] | av
         if self.in_unordered:
-            rec.setdefault("in_unordered", set()).update(id(l) for l in self.in_unordered)
+            rec.setdefault("in_unordered", set()).update(id(l[0]) for l in self.in_unordered)
+            if kind in ("call.append", "call.extend", "call.insert", "iadd"):
+                self.an.taint(av, self.cur_roots())
+
+    def cur_roots(self):
+        out = frozenset()
+        for (_, itav) in self.in_unordered:
+            out |= self.an.roots(itav)
+        return out
 
     def record_order(self, node, kind, iter_node, av, extra=None):
         key = (id(node), kind)
@@ -739,6 +881,10 @@ class Interp:
                 self.assign_name(t.id, IMM("num"), env, st)
                 return env
             self.record_mut(st, opk, t, cur, extra=dict(rhs=rhs, aug=True))
+            if opk == "iadd" and self.an.is_unordered(rhs):
+                self.an.taint(cur, self.an.roots(rhs))
+                self.record_order(st, "transfer", st.value, rhs,
+                                  extra=dict(result=[x[1] for x in cur if x[0] in ("F", "O")]))
             # a list stays the same object, an int/str/tuple becomes a new immutable value
             new = frozenset(a for a in cur if a[0] != "I") | (IMM("num") if any(a[0] == "I" for a in cur) else EMPTY)
             if not new:
@@ -792,7 +938,7 @@ class Interp:
         unord = self.an.is_unordered(it)
         if unord:
             self.record_order(st, "for", st.iter, it)
-            self.in_unordered.append(st)
+            self.in_unordered.append((st, it))
         el = self.iter_elem(it, st.iter)
 
         def bind(e):
@@ -935,7 +1081,9 @@ class Interp:
     def e_JoinedStr(self, e, env):
         for v in e.values:
             if isinstance(v, ast.FormattedValue):
-                self.ev(v.value, env)
+                x = self.ev(v.value, env)
+                if self.an.is_unordered(x):
+                    self.record_order(v, "format", v.value, x)
         return IMM("str")
 
     def e_NamedExpr(self, e, env):
@@ -984,14 +1132,14 @@ class Interp:
 
     def comp(self, e, env, kind, results):
         env = dict(env)
-        unord = False
+        unord = frozenset()
         npush = 0
         for g in e.generators:
             it = self.ev(g.iter, env)
             if self.an.is_unordered(it):
-                unord = True
+                unord = unord | frozenset(self.an.roots(it))
                 if kind == "list":
-                    self.record_order(e, "comprehension", g.iter, it)
+                    self.record_order(e, "transfer", g.iter, it)
             for n in ast.walk(g.target):
                 if isinstance(n, ast.Name):
                     self.compvars.append(n.id)
@@ -1017,8 +1165,14 @@ class Interp:
         pass
 
     def e_ListComp(self, e, env):
-        (el,), _ = self.comp(e, env, "list", [e.elt])
-        return self.fav(e, "list", "list", elem=el)
+        (el,), unord = self.comp(e, env, "list", [e.elt])
+        st = self.fresh(e, "list", "list", elem=el)
+        if unord:
+            self.an.taint(frozenset({("F", st.sid)}), unord)
+            rec = self.an.order_sites.get((id(e), "transfer"))
+            if rec is not None:
+                rec["extra"]["result"] = st.sid
+        return frozenset({("F", st.sid)})
 
     def e_SetComp(self, e, env):
         (el,), _ = self.comp(e, env, "set", [e.elt])
@@ -1104,7 +1258,10 @@ class Interp:
                 any(x[0] in ("F", "O") and self.an.S(x[1]).kind == "set" for x in a | b):
             kind = "set"
         el = self.an.elem_of(frozenset(x for x in a | b if x[0] != "I"), "operand element")
-        return self.fav(e, "binop", kind, elem=el)
+        st = self.fresh(e, "binop", kind, elem=el)
+        if kind in ("list", "tuple"):
+            st.fields["__src__"] = st.fields.get("__src__", EMPTY) | frozenset(x for x in a | b if x[0] in ("F", "O", "P"))
+        return frozenset({("F", st.sid)})
 
     def e_Starred(self, e, env):
         return self.ev(e.value, env)
@@ -1148,6 +1305,9 @@ class Interp:
                     return self.an.own(v) if a[0] == "O" else v
         if recv and all(a[0] == "I" for a in recv):
             return IMM("imm")
+        if any(a[0] in ("F", "O") and self.an.S(a[1]).kind in ("list", "tuple", "iter") for a in recv) and \
+                self.an.is_unordered(recv):
+            self.record_order(e, "index", e.value, recv)
         return self.an.elem_of(recv, "item")
 
     def iter_elem(self, av, node):
@@ -1164,7 +1324,9 @@ class Interp:
         out = set()
         for a in recv:
             if a[0] == "I":
-                out.add(("I", "imm"))
+                # attribute of a class object / module: class-level state is shared state
+                out.add(("B", f"class-level attribute .{attr}") if a[1] == "class" and not attr[:1].isupper()
+                        else ("I", "imm"))
             elif a[0] in ("F", "O"):
                 s = self.an.S(a[1])
                 if s.kind == "dict" and attr in ("parents", "maps"):
@@ -1208,12 +1370,21 @@ class Interp:
         name = f.id if isinstance(f, ast.Name) else f.attr if isinstance(f, ast.Attribute) else None
         if name:
             self.an.call_args.append((self.mod, self.sc, e, name, args, kws))
+        saved = self._applied
+        self._applied = False
         if isinstance(f, ast.Attribute):
-            return self.call_method(e, f, args, kws, env)
-        if isinstance(f, ast.Name):
-            return self.call_name(e, f.id, args, kws, env)
-        self.ev(f, env)
-        return B("result of computed call")
+            r = self.call_method(e, f, args, kws, env)
+        elif isinstance(f, ast.Name):
+            r = self.call_name(e, f.id, args, kws, env)
+        else:
+            self.ev(f, env)
+            r = B("result of computed call")
+        if not self._applied and name not in ORDER_NEUTRAL_CALLEES:
+            for an_, av in list(zip(e.args, args)) + [(k.value, kws[k.arg]) for k in e.keywords if k.arg in kws]:
+                if self.an.is_unordered(av):
+                    self.record_order(an_, "escape", an_, av, extra=dict(callee=unparse(f)))
+        self._applied = saved
+        return r
 
     def a0(self, args):
         return args[0] if args else EMPTY
@@ -1255,14 +1426,22 @@ class Interp:
             if name == "ChainMap":
                 r = self.fav(e, "ctor", "dict")
                 return r | self.a0(args)
-            if name in ("list", "tuple", "sorted", "deque") and args and an.is_unordered(src):
+            unord = bool(args) and an.is_unordered(src)
+            el = an.elem_of(src, keys=True) if args else EMPTY
+            st = self.fresh(e, "ctor", kind, elem=el)
+            if unord and name == "sorted":
                 key = None
                 for k in e.keywords:
                     if k.arg == "key":
                         key = k.value
-                self.record_order(e, name, e.args[0], src, extra=dict(key=key))
-            el = an.elem_of(src, keys=True) if args else EMPTY
-            return self.fav(e, "ctor", kind, elem=el)
+                self.record_order(e, "sorted", e.args[0], src, extra=dict(key=key))
+                st.clean = True
+            elif unord and name in ("list", "tuple", "deque"):
+                self.record_order(e, "transfer", e.args[0], src, extra=dict(result=st.sid))
+                an.taint(frozenset({("F", st.sid)}), an.roots(src))
+            elif name in ("list", "tuple", "deque") and st.tainted and not unord and self.an.rounds > 1:
+                pass
+            return frozenset({("F", st.sid)})
         if name in ("enumerate", "zip", "reversed", "iter", "map", "filter", "chain"):
             srcs = EMPTY
             for a in args:
@@ -1377,6 +1556,8 @@ class Interp:
     def apply(self, cands, args, kws, recv, mode, e):
         """Instantiate the return summaries of the candidate callees."""
         an = self.an
+        if cands:
+            self._applied = True
         out = set()
         for (rel, q, nd, is_meth) in cands:
             summ = an.ret_sum.get((rel, q))
@@ -1386,6 +1567,18 @@ class Interp:
             decos = {unparse(d) for d in nd.decorator_list}
             if is_meth and "staticmethod" not in decos and params:
                 params = params[1:]
+            fk = f"{rel}::{q}"
+            an.callgraph.setdefault(f"{self.mod.rel}::{self.sc.qual}", set()).add(fk)
+            if self.in_unordered:
+                an.unordered_callees[fk] = an.unordered_callees.get(fk, frozenset()) | self.cur_roots()
+            for i, pn in enumerate(params):
+                v = args[i] if i < len(args) else kws.get(pn)
+                if v:
+                    v = frozenset(x for x in v if x[0] in ("F", "O", "P"))
+                    old = an.param_in.get((fk, pn), EMPTY)
+                    if v and not v <= old:
+                        an.param_in[(fk, pn)] = old | v
+                        an.changed = True
             for a in summ:
                 if a[0] in ("I", "B", "G", "F"):
                     out.add(a)
@@ -1394,6 +1587,8 @@ class Interp:
                             ("B", "state of callee object"))
                 elif a[0] == "S":
                     out |= recv if recv else {("B", "callee self")}
+                elif a[0] == "P" and a[2] != f"{rel}::{q}":
+                    out.add(("B", "parameter of an enclosing/other function"))
                 elif a[0] == "P":
                     if a[1] in params and params.index(a[1]) < len(args):
                         out |= args[params.index(a[1])]
@@ -1530,6 +1725,10 @@ class Interp:
             elif attr == "insert" and len(args) > 1:
                 an.add_elem(recv, args[1])
             elif attr in ("extend", "update") and args:
+                if attr == "extend" and an.is_unordered(a0):
+                    an.taint(recv, an.roots(a0))
+                    self.record_order(e, "transfer", e.args[0], a0,
+                                      extra=dict(result=[x[1] for x in recv if x[0] in ("F", "O")]))
                 an.add_elem(recv, an.elem_of(a0), an.elem_of(a0, keys=True))
                 for v in kws.values():
                     an.add_elem(recv, v)
@@ -1598,6 +1797,7 @@ def run_function(an, mod, node, qual, parent, cls, captured, is_method=False):
     decos = {unparse(d) for d in node.decorator_list}
     plist = a.posonlyargs + a.args
     owns = an.cfg.owns_param.get((mod.rel, qual), {})
+    fkey = f"{mod.rel}::{qual}"
     for i, p in enumerate(plist):
         sc.params.add(p.arg)
         if i == 0 and is_method and "staticmethod" not in decos:
@@ -1606,16 +1806,16 @@ def run_function(an, mod, node, qual, parent, cls, captured, is_method=False):
         elif p.arg in owns:
             env[p.arg] = it.fav(p, "owned", "list", elem=B("element of owned argument"))
         else:
-            env[p.arg] = frozenset({("P", p.arg)})
+            env[p.arg] = frozenset({("P", p.arg, fkey)})
     for p in a.kwonlyargs:
         sc.params.add(p.arg)
-        env[p.arg] = frozenset({("P", p.arg)})
+        env[p.arg] = frozenset({("P", p.arg, fkey)})
     if a.vararg is not None:
         sc.params.add(a.vararg.arg)
-        env[a.vararg.arg] = it.fav(a.vararg, "vararg", "tuple", elem=frozenset({("P", a.vararg.arg)}))
+        env[a.vararg.arg] = it.fav(a.vararg, "vararg", "tuple", elem=frozenset({("P", a.vararg.arg, fkey)}))
     if a.kwarg is not None:
         sc.params.add(a.kwarg.arg)
-        env[a.kwarg.arg] = it.fav(a.kwarg, "kwarg", "dict", elem=frozenset({("P", a.kwarg.arg)}), kelem=IMM("str"))
+        env[a.kwarg.arg] = it.fav(a.kwarg, "kwarg", "dict", elem=frozenset({("P", a.kwarg.arg, fkey)}), kelem=IMM("str"))
     for n in it.shared_names:
         if n in env:
             key = (id(node), n)
@@ -1652,26 +1852,22 @@ def canon_text(node, scope):
         params |= sc.params
         sc = sc.parent
 
-    class R(ast.NodeTransformer):
-        def visit_Name(self, n):
-            s2 = scope
-            local = False
-            while s2 is not None and not isinstance(s2.node, ast.Module):
-                if n.id in s2.assigned and n.id not in s2.params:
-                    local = True
-                    break
-                if n.id in s2.params:
-                    break
-                s2 = s2.parent
-            if local:
-                return ast.copy_location(ast.Name(id="$", ctx=n.ctx), n)
-            return n
-    import copy as _copy
-    t = R().visit(_copy.deepcopy(node))
-    try:
-        return ast.unparse(t)
-    except Exception:
-        return ast.unparse(node)
+    import re
+    text = ast.unparse(node)
+    for n in ast.walk(node):
+        if not isinstance(n, ast.Name):
+            continue
+        s2, local = scope, False
+        while s2 is not None and not isinstance(s2.node, ast.Module):
+            if n.id in s2.params:
+                break
+            if n.id in s2.assigned:
+                local = True
+                break
+            s2 = s2.parent
+        if local:
+            text = re.sub(r"(?<![\w.$])" + re.escape(n.id) + r"\b", "$", text)
+    return text
 
 
 def guard_dominates(rec):
